@@ -152,4 +152,18 @@ CHECKS = {
         'trusted_base': [KERNEL, AX, TIE, 'model Pangaea/Object/Proto.lean is a hand transcription of findprop.go / evalProp / evalCall / native Obj.pangaea (ancestors, bro, kindOf?, which) / Obj#keys'],
         'assumptions': ['objects are immutable (C06), so a forest is a set of trees', 'built-in prototypes Obj and BaseObj are modelled only as owners of the probed built-in name (looked up in the live registry by the harness)'],
     },
+    'C09': {
+        'lean_modules': ['Pangaea.Theorems.C09'],
+        'theorem_modules': ['Pangaea.Theorems.C09'],
+        'theorems': ['Pangaea.C09.buildMap_eq_spec', 'Pangaea.C09.iter_order', 'Pangaea.C09.get_eq_spec', 'Pangaea.C09.dedupFirst_first_wins',
+                     'Pangaea.C09.dedupFirst_nodup', 'Pangaea.C09.obj_accessors_agree', 'Pangaea.C09.keys_hide_private'],
+        'harness': ['C09'],
+        'shards': 8,
+        'spec_is_function': True,
+        'rule': 'random object and map literals, nesting <= 2, up to 7 items, keys over all kinds (symbols, strs, private names, ints, integral floats, nil, bools, arrays, objects) from small pools to force duplicates, '
+                '`**obj` / `**map` operands (nested), then every accessor (show, keys, values, items, iteration via A, len, keys/values/items with private?: true) and three index probes (present, equivalent, absent, '
+                'property-naming keys); canonical rendering reads Keys/PrivateKeys/HashKeys/NonHashablePairs directly. non-trivial = literal has more than one pair; distinct by program text',
+        'trusted_base': [KERNEL, AX, TIE, 'model Pangaea/Object/Dict.lean is a hand transcription of evalObj / evalMap / NewInheritedMap / findElemInMap / keyHashes', 'FNV-64a and Float64bits hashes are treated as injective on the keys that occur'],
+        'assumptions': ['the key equivalence never relates a hashable to a non-hashable key (true of the built-in ==)', 'object keys are strs', 'property fallback of m[k] is taken from the live prototype chain by the harness'],
+    },
 }
